@@ -18,6 +18,16 @@ virtual clock.  Three kinds of cases:
               latter a connect() that stops asking is caught by the driver-call bound
             - default on-discover of rdwr without an llcp option activates every tag (docstring sentence)
             - no data exchange between on-release and the next discovery; beep-on-connect on/off
+  combo     connect() again, as a grid: state of each option group (absent / kept / removed by its own on-startup
+            returning None, False or a wrong type; rdwr with default, true or false on-discover; llcp with each
+            role) x one device class (nothing, Type A with SEL_RES 00h/20h/40h/60h, Type 1, Type B, FeliCa without
+            / with / with both NFC-DEP and Type 3 Tag, NFC-DEP initiators, readers), every other callback default
+            (key absent) or returning true/false/None/wrong types.  Next to the trace monitors above a reference
+            model written from the connect() docstring (model_handlers) predicts WHICH group activates the device:
+            a group that must not take it (rdwr's default on-discover next to an active llcp option and a target
+            that indicates NFC-DEP) never reaches on-connect, a device that some group handles IS activated (an llcp
+            option removed by its on-startup is "not present" for rdwr's default on-discover), and with a single
+            handler the return value follows from its callbacks' results.
   sense     target lists mixing supported / unsupported (decided by the driver) / invalid targets:
             no exception for >= 2 targets, first target found in the order given, field off (mute() is the last
             driver call) when nothing was found, `iterations` passes spaced by `interval` on the virtual clock.
@@ -42,7 +52,12 @@ RULE = ("cases = (a) connect(): random points of the product rdwr x llcp x card 
         "returning each truth value / wrong types, on-startup keeping / dropping the option} x roles x target lists "
         "x iterations x environment (nothing, each tag type incl. one that leaves after n commands, NFC-DEP peer as "
         "target or initiator ending by DISC / silence / never, reader driving card emulation, host link failure) x "
-        "call index j / virtual time T at which terminate() turns true; (b) sense() target lists over the world "
+        "call index j / virtual time T at which terminate() turns true; (a') the full grid rdwr state {absent, kept "
+        "with default/true/false on-discover, removed at start-up} x llcp state {absent, kept with each role, "
+        "removed} x card state {absent, kept, removed} x 16 single-device classes incl. dual protocol devices, the "
+        "remaining dimensions (which non-object on-startup result, every callback default/true/false/None/wrong "
+        "type, target lists, device stays/leaves) sampled per cell, judged against a reference model of the "
+        "docstring; (b) sense() target lists over the world "
         "device and over each real driver on a stub host link; (c) sense/listen/exchange sequences.  A case is "
         "distinct by its full description and non-trivial if the deciding monitor was reached (connect returned or "
         "raised and the trace was checked; sense reached the driver; an exchange was judged)")
@@ -50,6 +65,11 @@ ASSUMPTIONS = ["vf.sim.world is a faithful reading of the Device interface docum
                "tag frame formats (its tags/peers are minimal: enough for activation and presence checks)",
                "real drivers are instantiated without their __init__ on a stub host link that answers 'no target' "
                "(or one Type A / FeliCa target); only their sense_*/mute code paths are exercised",
+               "combo cases: a device that is in the field from the first discovery on is activated by the option "
+               "group that handles it before terminate() was polled LIVE_J=4 times (the docstring promises a return "
+               "after 'a single activation and deactivation'; every group gets its turn between two terminate() "
+               "polls); card emulation exists for Type 3 Tags only; the NFC-DEP Initiator meets passive targets at "
+               "106A and, unless brs=0, at 212F",
                "terminate() polled true while an activation is open may still end with the on-release value "
                "(docstring: 'wait until the tag is no longer present and then return True') or with None"]
 REQUIRED = ["connect_runs", "trace_checked", "activation_rdwr", "activation_llcp", "activation_card",
@@ -67,9 +87,11 @@ REAL_DRIVERS = ["pn531", "pn532", "pn533", "rcs956", "acr122", "arygonA", "arygo
 def plan(tier, seed):
     n = 16
     if tier == "quick":
-        return [{"connect": 420, "sense": 160, "real": 70, "exchange": 60, "systematic": True, "timeout": 120}
+        return [{"connect": 420, "sense": 160, "real": 70, "exchange": 60, "systematic": True, "combo": 2,
+                 "timeout": 120}
                 for _ in range(n)]
-    return [{"connect": 6500, "sense": 2500, "real": 900, "exchange": 800, "systematic": True, "timeout": 900}
+    return [{"connect": 6500, "sense": 2500, "real": 900, "exchange": 800, "systematic": True, "combo": 16,
+             "timeout": 900}
             for _ in range(n)]
 
 
@@ -255,6 +277,160 @@ def systematic_connect_cases(shard, nshards):
     return cases
 
 
+# -------------------------------------------------------------------------------------------------
+# "combo" cases: option group combinations x what on-startup made of each group x callbacks x one device
+# -------------------------------------------------------------------------------------------------
+# One device in the field (or none), present from the start.  The facts are what the device IS (protocol level,
+# from the NFC Forum Digital / Activity specifications), not what nfcpy makes of it:
+#   role   poll: found by our sense | pi: an NFC-DEP Initiator that activates us | reader: drives card emulation
+#   brty   technology / bit rate at which it is met
+#   seen   what a reader/writer discovery sees: {sensf_req flavour: (tag, ind)}  tag: can be activated as an
+#          NFC Forum tag from this discovery response, ind: the response indicates NFC-DEP support (SEL_RES bit 6
+#          / NFCID2 01FEh); None: the device does not answer this request
+#   dep    answers ATR_REQ (NFC-DEP Target with an LLCP peer)
+ENV_CLASSES = {
+    "none": None,
+    "A00": {"ent": {"e": "tag", "type": "t2t"}, "role": "poll", "brty": "106A", "seen": {"*": (True, False)}, "dep": False},
+    "A20": {"ent": {"e": "tag", "type": "t4a"}, "role": "poll", "brty": "106A", "seen": {"*": (True, False)}, "dep": False},
+    "A40": {"ent": {"e": "p2p-target", "tech": "106A"}, "role": "poll", "brty": "106A", "seen": {"*": (False, True)},
+            "dep": True},
+    "A60": {"ent": {"e": "multi", "tech": "106A"}, "role": "poll", "brty": "106A", "seen": {"*": (True, True)},
+            "dep": True},
+    # indicates NFC-DEP (SEL_RES 60h) but does not answer ATR_REQ
+    "A60t": {"ent": {"e": "tag", "type": "t4a-dep"}, "role": "poll", "brty": "106A", "seen": {"*": (True, True)},
+             "dep": False},
+    "T1": {"ent": {"e": "tag", "type": "t1t"}, "role": "poll", "brty": "106A", "seen": {"*": (True, False)}, "dep": False},
+    "B": {"ent": {"e": "tag", "type": "t4b"}, "role": "poll", "brty": "106B", "seen": {"*": (True, False)}, "dep": False},
+    "F": {"ent": {"e": "tag", "type": "t3t"}, "role": "poll", "brty": "212F", "seen": {"*": (True, False)}, "dep": False},
+    # FeliCa with NFC-DEP: NFCID2 01FEh on the wildcard system code only
+    "Fdep": {"ent": {"e": "p2p-target", "tech": "212F"}, "role": "poll", "brty": "212F",
+             "seen": {"wild": (False, True), "12fc": None}, "dep": True},
+    # both: Type 3 Tag (02FEh...) for system code 12FCh, NFC-DEP (01FEh...) for the wildcard
+    "Fmulti": {"ent": {"e": "multi", "tech": "212F"}, "role": "poll", "brty": "212F",
+               "seen": {"wild": (False, True), "12fc": (True, False)}, "dep": True},
+    "PI-A": {"ent": {"e": "p2p-initiator", "tech": "106A"}, "role": "pi", "brty": "106A"},
+    "PI-F": {"ent": {"e": "p2p-initiator", "tech": "424F"}, "role": "pi", "brty": "424F"},
+    "RD-F": {"ent": {"e": "reader", "tech": "212F", "cmds": ["rr", "poll", "read"]}, "role": "reader", "brty": "212F"},
+    "RD-F4": {"ent": {"e": "reader", "tech": "424F", "first": "rr", "cmds": ["poll", "rr"]}, "role": "reader",
+              "brty": "424F"},
+    "RD-A": {"ent": {"e": "reader", "tech": "106A"}, "role": "reader", "brty": "106A"},
+}
+ENV_ORDER = ["none", "A00", "A20", "A40", "A60", "A60t", "T1", "B", "F", "Fdep", "Fmulti", "PI-A", "PI-F", "RD-F", "RD-F4",
+             "RD-A"]
+RD_STATES = ["absent", "default-discover", "discover-true", "discover-false", "removed"]
+LL_STATES = ["absent", "role-any", "role-initiator", "role-target", "removed"]
+CE_STATES = ["absent", "kept", "removed"]
+RD_REMOVED = ["none", "false", "empty", "zero"]         # "An empty list or anything else that evaluates false"
+LL_REMOVED = ["none", "false", "true", "obj", "str"]    # "Any other value removes the 'llcp' option"
+CE_REMOVED = ["default", "none", "false", "wrong"]      # "The fully specified target object must then be returned"
+CB_CLASSES = {"default": [None], "T": ["T"], "F": ["F"], "N": ["N"], "wrongtrue": ["1", "S", "O"],
+              "wrongfalse": ["0", "E", "L"]}
+CB_ORDER = ["default", "T", "F", "N", "wrongtrue", "wrongfalse"]
+LIVE_J = 4              # see ASSUMPTIONS: the smallest terminate() index used with the combo cases
+
+
+REQUIRED += (
+    ["combo_runs", "combo_judged", "combo_life_stay", "combo_life_leave",
+     "model_handler_rdwr", "model_handler_llcp", "model_handler_card", "model_no_handler", "model_multi_handler",
+     "model_live_checked", "model_return_checked",
+     # rdwr's default on-discover against a target that indicates NFC-DEP, by what became of the llcp option
+     "model_default_discover_p2p_llcp-absent", "model_default_discover_p2p_llcp-kept",
+     "model_default_discover_p2p_llcp-removed",
+     # dual protocol devices activated from either side
+     "combo_act_A60_rdwr", "combo_act_A60_llcp", "combo_act_A60t_rdwr", "combo_act_Fmulti_rdwr", "combo_act_Fmulti_llcp",
+     # a group removed by its own on-startup next to a handler that relies on a documented default
+     "model_removed_llcp_default_rdwr_discover", "model_removed_llcp_default_rdwr_connect",
+     "model_removed_llcp_default_rdwr_release", "model_removed_card_default_rdwr_discover",
+     "model_removed_card_default_rdwr_connect", "model_removed_card_default_rdwr_release",
+     "model_removed_rdwr_default_llcp_connect", "model_removed_rdwr_default_llcp_release",
+     "model_removed_card_default_llcp_connect", "model_removed_card_default_llcp_release"]
+    + ["combo_env_" + e for e in ENV_ORDER]
+    + ["combo_rdwr_" + x for x in RD_STATES] + ["combo_llcp_" + x for x in LL_STATES]
+    + ["combo_card_" + x for x in CE_STATES]
+    + ["combo_startup_rdwr_" + x for x in RD_REMOVED + ["default", "same", "rev", "attrs", "sc12fc"]]
+    + ["combo_startup_llcp_" + x for x in LL_REMOVED + ["default", "llc"]]
+    + ["combo_startup_card_" + x for x in CE_REMOVED + ["212F", "424F", "106A"]]
+    + ["combo_cb_%s_%s" % (n, c) for n in ("discover", "connect", "release") for c in CB_ORDER])
+
+
+def code_class(code):
+    for k in CB_ORDER:
+        if code in CB_CLASSES[k]:
+            return k
+
+
+def combo_cells():
+    return [(rd, ll, ce, env) for rd in RD_STATES for ll in LL_STATES for ce in CE_STATES for env in ENV_ORDER]
+
+
+def gen_combo_case(cell, rng):
+    rd, ll, ce, envc = cell
+
+    def cb_code():
+        # the documented default (key absent) is the value of most interest next to a removed group: weight 3
+        return rng.choice(CB_CLASSES[rng.choice(CB_ORDER + ["default", "default"])])
+    opts = {}
+    if rd != "absent":
+        d = {}
+        if rd == "removed":
+            d["startup"] = rng.choice(RD_REMOVED)
+        elif envc in ("F", "Fdep", "Fmulti"):
+            d["startup"] = rng.choice([None, "same", "attrs", "sc12fc", "sc12fc"])
+        else:
+            d["startup"] = rng.choice([None, None, "same", "same", "rev", "attrs", "sc12fc"])
+        if rd == "discover-true":
+            d["discover"] = rng.choice(["T", "T", "1", "S", "O"])
+        elif rd == "discover-false":
+            d["discover"] = rng.choice(["F", "N", "0", "E", "L"])
+        elif rd == "removed":
+            d["discover"] = rng.choice([None, "T", "F"])
+        d["connect"], d["release"] = cb_code(), cb_code()
+        r = rng.random()
+        if r >= 0.55:
+            d["targets"] = rng.choice([["106A", "106B", "212F"], ["212F", "106B", "106A"], ["106A", "212F"], ["106A"],
+                                       ["212F", "424F"], ["106B", "106A"]])
+        d["iterations"] = rng.choice([1, 1, 1, 2, None])
+        d["interval"] = rng.choice([None, 0.0, 0.05])
+        if rng.random() < 0.3:
+            d["beep"] = rng.choice([True, False])
+        opts["rdwr"] = d
+    if ll != "absent":
+        d = {"startup": rng.choice(LL_REMOVED) if ll == "removed" else rng.choice([None, "llc"]),
+             "connect": cb_code(), "release": cb_code()}
+        role = {"role-any": None, "role-initiator": "initiator", "role-target": "target"}.get(ll, "?")
+        if role == "?":
+            role = rng.choice([None, "initiator", "target"])
+        d["role"] = role
+        if rng.random() < 0.3:
+            d["brs"] = rng.choice([0, 1, 2])
+        opts["llcp"] = d
+    if ce != "absent":
+        d = {"connect": cb_code(), "release": cb_code(), "discover": rng.choice([None, None, "T", "S", "F", "0"])}
+        if ce == "removed":
+            st = rng.choice(CE_REMOVED)
+            d["startup"] = None if st == "default" else st
+        elif envc in ("RD-F", "RD-F4"):
+            tech = ENV_CLASSES[envc]["brty"]
+            d["startup"] = rng.choice([tech, tech, tech, tech, tech, "212F" if tech == "424F" else "424F", "106A"])
+        else:
+            d["startup"] = rng.choice(["212F", "212F", "212F", "424F", "106A", "106A-t4"])
+        opts["card"] = d
+    life = rng.choice(["stay", "leave"])
+    ents = []
+    f = ENV_CLASSES[envc]
+    if f is not None:
+        e = dict(f["ent"])
+        if e["e"] in ("tag", "multi") and life == "leave":
+            e["leave_after"] = 14
+        if e["e"] in ("p2p-target", "p2p-initiator", "multi"):
+            e["end"], e["after"] = ("disc", 2) if life == "leave" else ("never", 2)
+        if e["e"] != "tag" and life == "leave":
+            e["sessions"] = 1
+        ents.append(e)
+    return {"kind": "connect", "model": True, "envclass": envc, "life": life, "cell": [rd, ll, ce],
+            "env": {"entities": ents}, "opts": opts, "term": {"j": rng.choice([LIVE_J, 7, 12])}}
+
+
 def gen_target_spec(rng, invalid_ok=True):
     t = {"brty": rng.choice(BRTYS + ["106A", "106B", "212F", "424F", "106X", "424Z"])}
     r = rng.random()
@@ -410,8 +586,16 @@ def make_options(case, tr, clock):
                     val = targets[:1]
                 elif mode == "rev":
                     val = list(reversed(targets))
+                elif mode == "sc12fc":
+                    # the docstring's example: discover NFC Forum Type 3 Tags only
+                    for t in targets:
+                        if t.brty.endswith("F"):
+                            t.sensf_req = bytearray.fromhex("0012FC0000")
+                    val = targets
                 elif mode == "none":
                     val = None
+                elif mode == "false":
+                    val = False
                 elif mode == "empty":
                     val = []
                 else:
@@ -433,7 +617,7 @@ def make_options(case, tr, clock):
         mode = d.get("startup")
         if mode is not None:
             def llcp_startup(llc, mode=mode):
-                val = llc if mode == "llc" else (None if mode == "none" else True)
+                val = {"llc": llc, "none": None, "false": False, "true": True, "obj": object(), "str": "llc"}[mode]
                 tr.add(k="cb", opt="llcp", name="startup", arg=llc, ret=val)
                 tr.llc = llc
                 return val
@@ -463,6 +647,8 @@ def make_options(case, tr, clock):
                     target.sensb_res = bytearray.fromhex("50E5DD3DC900000011008185")
                 elif mode == "none":
                     val = None
+                elif mode == "false":
+                    val = False
                 else:
                     val = nfc.clf.RemoteTarget("106A")
                 tr.add(k="cb", opt="card", name="startup", arg=target, ret=val)
@@ -520,7 +706,7 @@ def expected_left(opts):
     left = []
     d = opts.get("rdwr")
     # "An empty list or anything else that evaluates false will remove the 'rdwr' option completely."
-    if d is not None and d.get("startup") in (None, "same", "attrs", "sub", "rev"):
+    if d is not None and d.get("startup") in (None, "same", "attrs", "sub", "rev", "sc12fc"):
         left.append("rdwr")
     d = opts.get("llcp")
     # "The function should return the *llc* object if activation shall continue. Any other value removes the
@@ -845,9 +1031,12 @@ def check_connect(case, tr, R):
     # "The default function depends on the 'llcp' option, if present then the function returns True only if the
     #  target does not indicate peer to peer protocol support, otherwise it returns True for all targets."
     # "The target will be further activated only if this function returns a true value."
+    # "[llcp on-startup] Any other value removes the 'llcp' option." -> an llcp option that its own on-startup
+    # removed is not present any more
     d = opts.get("rdwr")
-    if d is not None and "rdwr" in left and d.get("discover") is None and opts.get("llcp") is None \
+    if d is not None and "rdwr" in left and d.get("discover") is None and "llcp" not in left \
             and d.get("connect") is not None and not by_exception:
+        llcp_state = "" if opts.get("llcp") is None else "/llcp-removed-at-startup"
         found_by = {}
         for e in drv:
             if e["call"].entity is not None:
@@ -864,13 +1053,13 @@ def check_connect(case, tr, R):
                 elif passed:
                     t = pending["ret"]
                     p2p = bool(t.sel_res and t.sel_res[0] & 0x40)
-                    V.append(("discover-default/%s-not-activated" % ("p2p-capable-tag" if p2p else "tag"),
+                    V.append(("discover-default/%s-not-activated%s" % ("p2p-capable-tag" if p2p else "tag", llcp_state),
                               "rdwr without llcp, default on-discover: the discovered tag %s was not activated" % t))
                     break
             if e["k"] == "fe_end" and e["op"] == "sense" and ev[e["ref"]].get("cls") == "rdwr" \
                     and e.get("exc") is None and e["ret"] is not None:
                 ent = found_by.get(id(e["ret"]))
-                if ent is not None and ent.spec["e"] == "tag":
+                if ent is not None and (ent.spec["e"] == "tag" or (ent.spec["e"] == "multi" and e["ret"].sel_res)):
                     pending = e
 
     # ---- beep-on-connect ----------------------------------------------------------------------------------
@@ -887,6 +1076,161 @@ def check_connect(case, tr, R):
                 V.append(("beep/%s" % ("missing" if on < want else "unwanted"),
                           "%d beeps for %d true on-connect results, beep-on-connect=%r" % (on, rd_true, d.get("beep"))))
             R.count("beep_checked")
+    return V
+
+
+# =================================================================================================
+# reference model of the connect() docstring for the combo cases (one device, present from the start)
+# =================================================================================================
+def model_handlers(case):
+    """-> (left, handlers, context): the option groups that, by the connect() docstring, activate the device of
+    this case and so produce on-connect.  Written from the docstring and the protocol facts in ENV_CLASSES only.
+    Where the docstring leaves the choice open (a user on-discover accepts a dual protocol target for rdwr while
+    llcp is active as well) every such group is a handler and any of them may come first."""
+    opts = case["opts"]
+    left = expected_left(opts)
+    f = ENV_CLASSES[case["envclass"]]
+    H, ctx = [], {}
+    if f is None:
+        return left, H, ctx
+    d = opts.get("rdwr")
+    if "rdwr" in left and f["role"] == "poll":
+        # "'targets' ... The default is ('106A', '106B', '212F')."
+        brtys = d.get("targets") or ["106A", "106B", "212F"]
+        flavour = "12fc" if d.get("startup") == "sc12fc" else "wild"
+        seen = f["seen"].get(flavour, f["seen"].get("*"))
+        if f["brty"] in brtys and seen is not None:
+            tag, ind = seen
+            if d.get("discover") is not None:
+                # "The target will be further activated only if this function returns a true value."
+                ok = bool(rv_value(d["discover"]))
+                ctx["rdwr"] = "user-discover"
+            else:
+                # "The default function depends on the 'llcp' option, if present then the function returns True only
+                #  if the target does not indicate peer to peer protocol support, otherwise it returns True for all
+                #  targets."   (llcp on-startup: "Any other value removes the 'llcp' option.")
+                ok = not ("llcp" in left and ind)
+                ctx["rdwr"] = "default-discover+llcp-%s" % ("kept" if "llcp" in left else
+                                                             ("removed" if opts.get("llcp") is not None else "absent"))
+                if ind:
+                    ctx["p2p-indicated"] = True
+            if ok and tag:
+                H.append("rdwr")
+    d = opts.get("llcp")
+    if "llcp" in left:
+        # "'role' ... As Initiator the local device will try to discover a remote device. As Target it waits for
+        #  being discovered. The default is to alternate between both roles."
+        role = d.get("role")
+        if f["role"] == "poll" and f["dep"] and role in (None, "initiator"):
+            # 'brs': 0 restricts the Initiator to 106 kbps (a FeliCa peer is met at 212 kbps)
+            if f["brty"] == "106A" or (f["brty"] == "212F" and d.get("brs") != 0):
+                H.append("llcp")
+                ctx["llcp"] = "initiator"
+        if f["role"] == "pi" and role in (None, "target"):
+            H.append("llcp")
+            ctx["llcp"] = "target"
+    d = opts.get("card")
+    if "card" in left and f["role"] == "reader" and f["brty"] in ("212F", "424F") and d.get("startup") == f["brty"]:
+        # card emulation exists for Type 3 Tags (nfc.tag.emulate); "The default function always returns True."
+        if d.get("discover") is None or bool(rv_value(d["discover"])):
+            H.append("card")
+            ctx["card"] = "default-discover" if d.get("discover") is None else "user-discover"
+    return left, H, ctx
+
+
+def check_model(case, tr, R):
+    """the predicted side of the connect() contract: which group activates the device (and that one does)"""
+    import nfc.tag
+    import nfc.llcp.llc
+    V = []
+    opts, envc = case["opts"], case["envclass"]
+    rd, ll, ce = case["cell"]
+    R.count("combo_runs")
+    R.count("combo_env_" + envc)
+    R.count("combo_rdwr_" + rd)
+    R.count("combo_llcp_" + ll)
+    R.count("combo_card_" + ce)
+    R.count("combo_life_" + case["life"])
+    for g in ("rdwr", "llcp", "card"):
+        d = opts.get(g)
+        if d is None:
+            continue
+        R.count("combo_startup_%s_%s" % (g, d.get("startup") or "default"))
+        for name in ("discover", "connect", "release"):
+            if name in d or name != "discover":
+                R.count("combo_cb_%s_%s" % (name, code_class(d.get(name))))
+    left, H, ctx = model_handlers(case)
+    R.seen("combo_left", "+".join(left) or "nothing")
+    if tr.exc is not None or tr.ret is False:
+        R.count("combo_ended_by_exception")         # judged by the trace monitors
+        return V
+    R.count("combo_judged")
+    acts = [e for e in tr.ev if e["k"] == "cb" and e["name"] in ("connect", "release") and e["opt"] in left]
+    groups = []
+    for e in acts:
+        if e["opt"] not in groups:
+            groups.append(e["opt"])
+            R.count("combo_act_%s_%s" % (envc, e["opt"]))
+    # (1) a group that, by the docstring, does not take this device
+    for g in groups:
+        if g not in H:
+            V.append(("model/activated-by-non-handler/%s/%s/%s" % (g, envc, ctx.get(g, "-")),
+                      "on-connect/on-release of %s for a device (%s) that this option does not handle with these "
+                      "options" % (g, envc)))
+    if ctx.get("p2p-indicated"):
+        R.count("model_default_discover_p2p_" + ctx["rdwr"].split("+")[1])
+    if not H:
+        R.count("model_no_handler")
+        # nothing can ask for another value: "returns None ... when the 'terminate' function returned a true value"
+        if tr.ret is not None and not groups:
+            V.append(("model/return/no-handler-not-None/" + envc,
+                      "no option handles the device (%s) but connect() returned %r" % (envc, tr.ret)))
+        return V
+    for g in H:
+        R.count("model_handler_" + g)
+        # the interplay this family is about: a group removed by its own on-startup next to a handler that relies
+        # on documented defaults
+        for name in ("discover", "connect", "release"):
+            if opts[g].get(name) is None and (name != "discover" or g != "llcp"):
+                for g0 in ("rdwr", "llcp", "card"):
+                    if opts.get(g0) is not None and g0 not in left:
+                        R.count("model_removed_%s_default_%s_%s" % (g0, g, name))
+    if len(H) > 1:
+        R.count("model_multi_handler")
+    # (2) the device is in the field from the start: one of its handlers activates it
+    invisible = [h for h in H if opts[h].get("connect") is None and opts[h].get("release") is None]
+    activated = any(g in H for g in groups) or (tr.ret is True and bool(invisible))
+    R.count("model_live_checked")
+    if not activated:
+        what = ",".join("%s:%s" % (h, ctx.get(h, "-")) for h in H)
+        V.append(("model/not-activated/%s/%s" % (envc, what),
+                  "device %s is present, %s must activate it (options left: %s) but no activation took place and "
+                  "connect() returned %r" % (envc, "/".join(H), "+".join(left), tr.ret)))
+        return V
+    # (3) one handler only: the return value follows from its callbacks' results
+    if len(H) == 1 and not V:
+        h = H[0]
+        c, r = opts[h].get("connect"), opts[h].get("release")
+        ret = tr.ret
+        cls = {"rdwr": nfc.tag.Tag, "llcp": nfc.llcp.llc.LogicalLinkController, "card": nfc.tag.TagEmulation}[h]
+        if c is not None and not rv_value(c):
+            ok, want = isinstance(ret, cls), cls.__name__
+        elif r is None:
+            # "wait until the tag is no longer present and then return True" (ASSUMPTIONS: None when terminate()
+            # ended the activation)
+            ok, want = ret is True or (ret is None and case["life"] == "stay"), "True"
+        elif rv_value(r):
+            val = rv_value(r)
+            ok, want = type(ret) is type(val) and (r == "O" or ret == val), repr(val)
+        else:
+            ok, want = ret is None, "None"
+        R.count("model_return_checked")
+        if not ok:
+            V.append(("model/return/%s/%s" % (h, "connect-false" if (c is not None and not rv_value(c)) else
+                                              ("release-default" if r is None else
+                                               ("release-true" if rv_value(r) else "release-false"))),
+                      "%s handles %s, on-connect %r / on-release %r: expected %s, connect() returned %r"
+                      % (h, envc, c, r, want, ret)))
     return V
 
 
@@ -911,6 +1255,8 @@ def do_connect(case, R, report=True):
         if env.get("fail"):
             R.count("env_hostlink_failure")
     V = check_connect(case, tr, R)
+    if case.get("model"):
+        V = V + check_model(case, tr, R)
     R.case(case, nontrivial=True)
     for sig, what in V:
         R.violation(sig, what, case)
@@ -1270,6 +1616,15 @@ def run(desc, R, rng):
         do_sense(gen_sense_case(rng, driver=rng.choice(REAL_DRIVERS)), R)
     for i in range(desc["exchange"]):
         do_exchange(gen_exchange_case(rng), R)
+    # option group combinations against the reference model: every cell of rdwr state x llcp state x card state x
+    # device class, dealt round-robin; per cell one sample of the remaining dimensions that does not depend on the
+    # seed and `combo`-1 that do
+    import random
+    for k, cell in enumerate(combo_cells()):
+        if k % nsh != shard:
+            continue
+        for i in range(desc.get("combo", 0)):
+            do_connect(gen_combo_case(cell, random.Random(7919 * k + 13) if i == 0 else rng), R)
 
 
 def replay(case, R):
